@@ -43,6 +43,8 @@ def kani_obligations(prop, tier):
                 cfgs = h["configs"] or [c for c in m["configs"] if c != "*"] or ["dev"]
                 if "*" in m["configs"] and not h["configs"]:
                     cfgs = ["dev"]
+                if tier == "quick" and m.get("quickconfigs") and not h["configs"]:
+                    cfgs = [c for c in cfgs if c in m["quickconfigs"]]
                 for c in cfgs:
                     obs.append({"engine": "kani", "config": c, "harness": h["name"], "module": m["stem"],
                                 "host": m["host"], "meta": h["meta"], "props": h["props"]})
@@ -245,6 +247,32 @@ def main():
     return 1 if new else 0
 
 
+def cfg_scan():
+    """C19 step (1): every place where the crate's text depends on the configuration, from /repo's current tree."""
+    import re
+    out = {"unit_checking": [], "float_backend_or_std_value": [], "item_availability_only": []}
+    src = os.path.join(common.REPO, "src")
+    for root, _d, files in os.walk(src):
+        for f in sorted(files):
+            if not f.endswith(".rs"):
+                continue
+            rel = os.path.relpath(os.path.join(root, f), common.REPO)
+            for i, line in enumerate(common.read(os.path.join(root, f)).splitlines(), 1):
+                if "cfg" not in line or not re.search(r"#!?\[cfg|cfg!\(", line):
+                    continue
+                t = line.strip()
+                if "dim_check" in t or "debug_assertions" in t:
+                    out["unit_checking"].append("%s:%d" % (rel, i))
+                elif rel.endswith("enhanced_float.rs") or (rel.endswith("dimensions.rs") and 'feature = "std"' in t):
+                    out["float_backend_or_std_value"].append("%s:%d" % (rel, i))
+                else:
+                    out["item_availability_only"].append("%s:%d" % (rel, i))
+    out["note"] = ("unit_checking and float_backend_or_std_value sites are the only ones that can change a computed value or a panic; "
+                   "they lie in Unit/Quantity/State/Time conversions (re-proved per configuration by the c19_* harnesses) and in powf "
+                   "(excluded by the property); item_availability_only sites switch whole items on or off (alloc/std/devices)")
+    return out
+
+
 def _expected_count(prop, tier):
     p = os.path.join(VERIF, "contracts", "expected_counts.json")
     if not os.path.exists(p):
@@ -288,6 +316,8 @@ def write_evidence(prop, tier, seed, records, violations, annotations, cmds, vin
         "repo_head": common.repo_head(), "repo_dirty": common.repo_dirty(),
         "explanation": notes.get("explanation", ""),
     }
+    if prop == "C19":
+        cov["cfg_scan"] = cfg_scan()
     if vinfo:
         cov["verus"] = vinfo
     ev = {
